@@ -426,6 +426,10 @@ func actionInfo(o *Obs, kind string) []*pipeline.ActionPluginStaticInfo {
 	switch kind {
 	case "join":
 		return []*pipeline.ActionPluginStaticInfo{mk("join", `{"field":"m","start":"/^S/","continue":"/^C/"}`)}
+	case "joinmatch":
+		a := mk("join", `{"field":"m","start":"/^S/","continue":"/^C/"}`)
+		a.MatchConditions = pipeline.MatchConditions{{Field: []string{"t"}, Values: []string{"j"}}}
+		return []*pipeline.ActionPluginStaticInfo{a}
 	case "join2":
 		return []*pipeline.ActionPluginStaticInfo{mk("join", `{"field":"n","start":"/^S/","continue":"/^C/"}`)}
 	case "discard":
@@ -597,6 +601,11 @@ func Check(sc *Scn, x *vsched.Exec) []vexplore.Finding {
 		if len(pend) > 0 {
 			fs = append(fs, vexplore.Finding{Clause: "unaccounted", Features: map[string]string{"at": "horizon"},
 				Detail: fmt.Sprintf("accepted events %v have neither been committed nor dropped when the pipeline went idle (virtual-time horizon %v, every send answered)", pend, sc.Horizon)})
+		}
+		if len(pend) > 0 && o.readersDone == len(o.evs)-1 {
+			// nothing is runnable any more (only timers), every send was answered: the pipeline is idle, yet events are still out
+			fs = append(fs, vexplore.Finding{Clause: "not-zero-at-idle", Features: map[string]string{"at": "horizon"},
+				Detail: fmt.Sprintf("%d events are still out of the pool (%v) when the pipeline has gone idle for good (virtual-time horizon %v)", o.out, pend, sc.Horizon)})
 		}
 		fs = append(fs, vexplore.Finding{Clause: "wedged", Features: map[string]string{"pool": string(sc.Pool)},
 			Detail: fmt.Sprintf("virtual-time horizon %v passed: readers done %d/%d, accepted %d, ended %d, pending %v; every send is answered. Threads: %s",
